@@ -1,6 +1,8 @@
 package main
 
 import (
+	"context"
+
 	v1 "github.com/truora/minidyn/aws-v1/client"
 	v2 "github.com/truora/minidyn/aws-v2/client"
 )
@@ -11,7 +13,7 @@ var profiles = map[string]Profile{
 	"keys": {Name: "keys", Put: 30, Update: 12, Delete: 10, Get: 20, Query: 8, Scan: 5, Pages: 3, BatchWrite: 3, BatchGet: 3, Describe: 2, Failure: 0, Mgmt: 1,
 		CondPct: 15, BadPct: 12, Tables: 1, MaxIndexes: 1, OpsMin: 8, OpsMax: 25, ExactNums: true, DotKeys: true, NumericKeys: true, FinalObserve: true, DelBoundary: 20},
 	"index": {Name: "index", Put: 28, Update: 26, Delete: 10, Get: 3, Query: 8, Scan: 6, Pages: 3, BatchWrite: 3, BatchGet: 0, Describe: 4, Failure: 0, Mgmt: 9,
-		CondPct: 15, BadPct: 8, Tables: 1, MaxIndexes: 3, OpsMin: 8, OpsMax: 30, ExactNums: true, FinalObserve: true, DelBoundary: 20},
+		CondPct: 15, BadPct: 8, Tables: 1, MaxIndexes: 3, OpsMin: 8, OpsMax: 30, ExactNums: true, FinalObserve: true, DelBoundary: 20, BinIndexKeys: true},
 	"search": {Name: "search", Put: 40, Update: 8, Delete: 8, Get: 0, Query: 22, Scan: 8, Pages: 14, BatchWrite: 0, BatchGet: 0, Describe: 0, Failure: 0, Mgmt: 0,
 		CondPct: 5, BadPct: 3, Tables: 1, MaxIndexes: 2, OpsMin: 12, OpsMax: 36, ExactNums: true, NumericKeys: true, FewHash: true, FinalObserve: false, DelBoundary: 50},
 	"cond": {Name: "cond", Put: 30, Update: 25, Delete: 22, Get: 6, Query: 2, Scan: 4, Pages: 0, BatchWrite: 0, BatchGet: 0, Describe: 1, Failure: 0, Mgmt: 0,
@@ -20,7 +22,7 @@ var profiles = map[string]Profile{
 		CondPct: 45, BadPct: 45, Tables: 1, MaxIndexes: 2, OpsMin: 8, OpsMax: 24, ExactNums: true, FinalObserve: true},
 	"emul": {Name: "emul", Put: 18, Update: 10, Delete: 8, Get: 8, Query: 6, Scan: 4, Pages: 2, BatchWrite: 12, BatchGet: 6, Describe: 3, Failure: 16, Mgmt: 2, Transact: 4,
 		CondPct: 20, BadPct: 6, Tables: 2, MaxIndexes: 1, OpsMin: 10, OpsMax: 30, ExactNums: true, FinalObserve: true},
-	"lifecycle": {Name: "lifecycle", Put: 22, Update: 8, Delete: 6, Get: 6, Query: 4, Scan: 8, Pages: 0, BatchWrite: 3, BatchGet: 2, Describe: 12, Failure: 1, Mgmt: 26,
+	"lifecycle": {Name: "lifecycle", Put: 22, Update: 8, Delete: 6, Get: 6, Query: 4, Scan: 8, Pages: 0, BatchWrite: 3, BatchGet: 2, Describe: 12, Failure: 1, Mgmt: 26, Native: 3,
 		CondPct: 10, BadPct: 10, Tables: 2, MaxIndexes: 2, OpsMin: 10, OpsMax: 30, ExactNums: true, FinalObserve: true},
 	"batch": {Name: "batch", Put: 14, Update: 4, Delete: 6, Get: 6, Query: 2, Scan: 6, Pages: 0, BatchWrite: 34, BatchGet: 22, Describe: 2, Failure: 2, Mgmt: 2,
 		CondPct: 5, BadPct: 8, Tables: 2, MaxIndexes: 1, OpsMin: 8, OpsMax: 24, ExactNums: true, FinalObserve: true},
@@ -39,6 +41,11 @@ func runHistory(ops []*Op) (Outcome, Outcome) {
 	if skipThis() {
 		return Outcome{"outs": []Outcome{fatalOutcome()}}, Outcome{"outs": []Outcome{fatalOutcome()}}
 	}
+	// separate clients share no state: next to each client under test lives a sibling of the same SDK that was used
+	// before (same table names, other schema, items, native registrations for every text the histories use, the native
+	// interpreter active, a failure switched on); the model knows nothing of it
+	s1, s2 := siblingV1(), siblingV2()
+	defer func() { _, _ = s1, s2 }()
 	c1 := v1.NewClient()
 	c2 := v2.NewClient()
 	o1 := make([]Outcome, 0, len(ops))
@@ -62,4 +69,46 @@ func genHistCases(r *Rng, n int, profile string) {
 		a, b := runHistory(ops)
 		emit(Case{"kind": "hist", "profile": profile, "ops": ops, "impl": Outcome{"v1": a["outs"], "v2": b["outs"]}})
 	}
+}
+
+
+func siblingV1() *v1.Client {
+	defer func() { recover() }()
+	c := v1.NewClient()
+	c.ActivateNativeInterpreter()
+	for _, tn := range []string{"tab0", "tab1", "tab2"} {
+		_ = v1.AddTable(c, tn, "sib", "")
+		_ = v1.AddIndex(c, tn, "gsi0", "v", "")
+		op := &Op{Op: "put", Table: HexS(tn), Item: Item{{[]byte("sib"), S("a")}, {[]byte("h"), S("a")}, {[]byte("r"), S("a")}, {[]byte("v"), S("1")}}}
+		runV1(c, op)
+		for _, e := range nativeTexts {
+			for _, k := range []string{"key", "filter", "cond"} {
+				c.GetNativeInterpreter().AddMatcher(tn, exprKind(k), e, matcherFunc(4))
+			}
+			c.GetNativeInterpreter().AddUpdater(tn, e, updaterFunc(4))
+		}
+	}
+	v1.EmulateFailure(c, v1.FailureCondition("internal_server"))
+	return c
+}
+
+func siblingV2() *v2.Client {
+	defer func() { recover() }()
+	c := v2.NewClient()
+	c.ActivateNativeInterpreter()
+	ctx := context.Background()
+	for _, tn := range []string{"tab0", "tab1", "tab2"} {
+		_ = v2.AddTable(ctx, c, tn, "sib", "")
+		_ = v2.AddIndex(ctx, c, tn, "gsi0", "v", "")
+		op := &Op{Op: "put", Table: HexS(tn), Item: Item{{[]byte("sib"), S("a")}, {[]byte("h"), S("a")}, {[]byte("r"), S("a")}, {[]byte("v"), S("1")}}}
+		runV2(c, op)
+		for _, e := range nativeTexts {
+			for _, k := range []string{"key", "filter", "cond"} {
+				c.GetNativeInterpreter().AddMatcher(tn, exprKind(k), e, matcherFunc(4))
+			}
+			c.GetNativeInterpreter().AddUpdater(tn, e, updaterFunc(4))
+		}
+	}
+	v2.EmulateFailure(c, v2.FailureCondition("internal_server"))
+	return c
 }
